@@ -241,6 +241,10 @@ func (i *interpreter) globalCell(g *ssa.Global) *value {
 			cell = i.env.sentinel("io.EOF", "EOF")
 		case "context.Canceled":
 			cell = i.env.sentinel("context.Canceled", "context canceled")
+		case "time.Local":
+			cell = i.env.zoneLocal()
+		case "time.UTC":
+			cell = i.env.zoneUTC()
 		}
 	}
 	i.globals[g] = &cell
